@@ -85,6 +85,18 @@ def absReg (t : Int × Option Int × List (Int × Int)) : Option Int × Option I
 
 /-! ### small run-time facts -/
 
+theorem ok_bind {α β : Type} (a : α) (f : α → R β) : (Except.ok a >>= f) = f a := rfl
+theorem error_bind {α β : Type} (e : Err) (f : α → R β) : ((Except.error e : R α) >>= f) = .error e := rfl
+theorem map_ok {α β : Type} (a : α) (f : α → β) : Except.map f (Except.ok a : R α) = .ok (f a) := rfl
+theorem map_error {α β : Type} (e : Err) (f : α → β) : Except.map f (Except.error e : R α) = .error e := rfl
+
+/-- what follows an `if` statement whose branches both fall through -/
+theorem ite_ok_bind {α β : Type} (c : Prop) [Decidable c] (a b : α) (f : α → R β) :
+    ((if c then (Except.ok a : R α) else Except.ok b) >>= f) = f (if c then a else b) := by
+  by_cases h : c
+  · rw [if_pos h, if_pos h]; rfl
+  · rw [if_neg h, if_neg h]; rfl
+
 @[simp] theorem pyGet_zero_nil {α : Type} : pyGet ([] : List α) 0 = .error .index := by
   simp [pyGet]
 
@@ -386,5 +398,232 @@ theorem Inv.processSeqBuffer {st : IdxState} (h : Inv st) : Inv (processSeqBuffe
 
 theorem Inv.pos {st : IdxState} (h : Inv st) (p : Int) : Inv { st with pos := p } :=
   ⟨h.nameNe, h.rplSome, h.lebPos, h.reg⟩
+
+/-! ### one line, model side -/
+
+/-- `seq = line[:-line_end_bytes] if line[-1] == 10 else line` -/
+def keepOf (leb : Int) (line : Bytes) : Bytes :=
+  if line.getLast? = some 10 then line.take (line.length - leb.toNat) else line
+
+/-- `residues_per_line`, `seq_buffer.write(seq)`, `fh.tell()` -/
+def addKeep (st : IdxState) (n : Nat) (keep : Bytes) (r : Int) : IdxState :=
+  { st with pos := st.pos + n, rpl := some (if r = 0 then (keep.length : Int) else r), buffer := st.buffer ++ keep,
+            maxBuffered := max st.maxBuffered (st.buffer ++ keep).length }
+
+/-- a sequence line inside a record -/
+theorem indexLine_residue (bs : Int) (st : IdxState) (b0 : Nat) (tl : Bytes) (r : Int) (n : Str)
+    (hb : b0 ≠ 62) (hr : st.rpl = some r) (hn : st.name = some n) :
+    indexLine bs st (b0 :: tl) = .ok
+      (if (((st.buffer ++ keepOf st.lineEndBytes (b0 :: tl)).length : Nat) : Int) > bs
+        then processSeqBuffer (addKeep st (b0 :: tl).length (keepOf st.lineEndBytes (b0 :: tl)) r)
+        else addKeep st (b0 :: tl).length (keepOf st.lineEndBytes (b0 :: tl)) r) := by
+  unfold indexLine
+  simp only [pyGet_zero_cons, hr, hn, bind, Except.bind, pure, Except.pure, hb, if_false, keepOf, addKeep]
+  by_cases h0 : r = 0 <;> by_cases hl : (b0 :: tl).getLast? = some 10 <;>
+    simp only [h0, hl, if_true, if_false] <;> split <;> rfl
+
+/-- a terminated sequence line before any header, nothing buffered before: `line[:-None]` -/
+theorem indexLine_pre_term (bs : Int) (st : IdxState) (b0 : Nat) (tl : Bytes)
+    (hb : b0 ≠ 62) (hr : st.rpl = none) (hl : (b0 :: tl).getLast? = some 10) :
+    indexLine bs st (b0 :: tl) = .error .type := by
+  unfold indexLine
+  simp only [pyGet_zero_cons, hr, bind, Except.bind, hb, if_false, hl, if_true]
+  rfl
+
+/-- an unterminated sequence line before any header -/
+theorem indexLine_pre_open (bs : Int) (st : IdxState) (b0 : Nat) (tl : Bytes)
+    (hb : b0 ≠ 62) (hn : st.name = none) (hl : (b0 :: tl).getLast? ≠ some 10) :
+    indexLine bs st (b0 :: tl) =
+      if (((st.buffer ++ (b0 :: tl)).length : Nat) : Int) > bs then .error .type
+      else .ok (addKeep st (b0 :: tl).length (b0 :: tl) (st.rpl.getD 0)) := by
+  unfold indexLine
+  simp only [pyGet_zero_cons, hn, bind, Except.bind, pure, Except.pure, hb, if_false, hl, addKeep]
+  cases hr : st.rpl with
+  | none =>
+    simp only [Option.getD_none, if_true]
+    split <;> rfl
+  | some r =>
+    by_cases h0 : r = 0
+    · simp only [h0, Option.getD_some, if_true]; split <;> rfl
+    · simp only [h0, Option.getD_some, if_false]; split <;> rfl
+
+/-- what a header line does after the previous record was stored -/
+def headerPart (line : Bytes) (st : IdxState) : R IdxState :=
+  if (firstTok (line.drop 1)).isEmpty then .error .index
+  else bytesToStr (firstTok (line.drop 1)) >>= fun name =>
+    pyGet line (-2) >>= fun b2 =>
+    .ok { st with name := some name, seqLength := 0, rpl := some 0, regionStart := 0, regionEnd := none,
+                  seqRegions := [], fileOffset := st.pos, lineEndBytes := if b2 = 13 then 2 else 1 }
+
+theorem indexLine_header (bs : Int) (st : IdxState) (tl : Bytes) :
+    indexLine bs st (62 :: tl) =
+      (if st.name.isSome then storeInfo { st with pos := st.pos + (62 :: tl).length }
+        else .ok { st with pos := st.pos + (62 :: tl).length }) >>= headerPart (62 :: tl) := by
+  unfold indexLine headerPart firstTok
+  simp only [pyGet_zero_cons, bind, Except.bind, pure, Except.pure, if_true, List.drop_succ_cons, List.drop_zero]
+  by_cases hn : st.name.isSome = true
+  · simp only [hn, if_true]
+    cases storeInfo _ with
+    | error e => rfl
+    | ok v => dsimp only; split <;> rfl
+  · simp only [hn, Bool.false_eq_true, if_false]
+    split <;> rfl
+
+/-! ### where model and source agree: the part of the file before the first header
+
+  Before any header the source's `line_end_bytes` is `None`, so `line[:-line_end_bytes]` raises TypeError for every
+  LF-terminated sequence line.  The model raises it only while `residues_per_line` is still `None`, i.e. for the FIRST
+  sequence line; after an unterminated header-less line (which sets `residues_per_line`) it accepts a terminated one.
+  Binary file iteration never yields that (only the last line of a file can be unterminated). -/
+
+/-- after a header-less unterminated line: up to the first header (or empty line) no LF-terminated sequence line follows -/
+def safeB : List Bytes → Bool
+  | [] => true
+  | l :: ls =>
+    match l with
+    | [] => true
+    | b :: _ => if b = 62 then true else if l.getLast? = some 10 then false else safeB ls
+
+/-- the lines before the first header: a header-less unterminated line is not followed by an LF-terminated sequence line -/
+def preHeaderOk : List Bytes → Bool
+  | [] => true
+  | l :: ls =>
+    match l with
+    | [] => true
+    | b :: _ => if b = 62 then true else if l.getLast? = some 10 then true else safeB ls
+
+/-- what `for line in fh` yields: every line but the last ends with LF -/
+def Terminated (lines : List Bytes) : Prop := ∀ l ∈ lines.dropLast, l.getLast? = some 10
+
+theorem Terminated.tail {l : Bytes} {ls : List Bytes} (h : Terminated (l :: ls)) : Terminated ls := by
+  intro x hx
+  cases ls with
+  | nil => simp at hx
+  | cons y ys => exact h x (by rw [List.dropLast_cons_cons]; exact List.mem_cons_of_mem _ hx)
+
+theorem Terminated.head {l y : Bytes} {ys : List Bytes} (h : Terminated (l :: y :: ys)) : l.getLast? = some 10 :=
+  h l (by rw [List.dropLast_cons_cons]; exact List.mem_cons_self ..)
+
+theorem preHeaderOk_of_terminated (lines : List Bytes) (h : Terminated lines) : preHeaderOk lines = true := by
+  cases lines with
+  | nil => rfl
+  | cons l ls =>
+    cases l with
+    | nil => rfl
+    | cons b tl =>
+      simp only [preHeaderOk]
+      by_cases hb : b = 62
+      · simp [hb]
+      · simp only [hb, if_false]
+        by_cases hl : (b :: tl).getLast? = some 10
+        · simp [hl]
+        · simp only [hl, if_false]
+          cases ls with
+          | nil => rfl
+          | cons y ys => exact absurd h.head hl
+
+/-- the loop invariant: `Inv`, and in the header-less part of the file the rest of the lines is of the agreed shape -/
+def InvL (st : IdxState) (rest : List Bytes) : Prop :=
+  Inv st ∧ (st.name = none → (st.rpl = none → preHeaderOk rest = true) ∧ (st.rpl ≠ none → safeB rest = true))
+
+theorem invL_init (lines : List Bytes) (h : preHeaderOk lines = true) : InvL {} lines :=
+  ⟨inv_init, fun _ => ⟨fun _ => h, fun h' => absurd rfl h'⟩⟩
+
+theorem Inv.stored {st : IdxState} (h : Inv st) (t : RegState) (ht : RegInv t) : Inv (stored st t) :=
+  ⟨h.nameNe, h.rplSome, h.lebPos, ⟨ht.1, closeReg_lt t ht⟩⟩
+
+theorem Inv.storeInfo {st st' : IdxState} (h : Inv st) (e : storeInfo st = .ok st') : Inv st' := by
+  rw [storeInfo_eq] at e
+  split at e
+  · cases e
+  · cases e; exact h.stored _ h.fold
+
+theorem inv_headerPart {line : Bytes} {st st' : IdxState} (e : headerPart line st = .ok st') :
+    Inv st' ∧ st'.name.isSome = true := by
+  unfold headerPart at e
+  split at e
+  · cases e
+  · next htok =>
+    cases hs : bytesToStr (firstTok (line.drop 1)) with
+    | error err => rw [hs] at e; cases e
+    | ok name =>
+      cases hb : pyGet line (-2) with
+      | error err => rw [hs, hb] at e; cases e
+      | ok b2 =>
+        rw [hs, hb] at e
+        simp only [ok_bind, Except.ok.injEq] at e
+        subst e
+        have hne : name ≠ [] := by
+          intro hnil
+          have := bytesToStr_isEmpty hs
+          rw [hnil] at this
+          exact htok this.symm
+        refine ⟨⟨?_, ?_, ?_, ⟨?_, ?_⟩⟩, rfl⟩
+        · intro n hn; simp only [Option.some.injEq] at hn; subst hn; exact hne
+        · intro n _; exact ⟨0, rfl⟩
+        · intro n _; simp only; split <;> decide
+        · intro r hr; cases hr
+        · intro p hp; cases hp
+
+theorem invL_of_isSome {st : IdxState} (h : Inv st) (hs : st.name.isSome = true) (rest : List Bytes) : InvL st rest :=
+  ⟨h, fun hn => by rw [hn] at hs; cases hs⟩
+
+/-- one line keeps the invariant -/
+theorem invL_step (bs : Int) {st st' : IdxState} {line : Bytes} {rest : List Bytes}
+    (h : InvL st (line :: rest)) (e : indexLine bs st line = .ok st') : InvL st' rest := by
+  obtain ⟨hI, hsafe⟩ := h
+  cases line with
+  | nil => simp [indexLine, bind, Except.bind] at e
+  | cons b0 tl =>
+    by_cases hb : b0 = 62
+    · subst hb
+      rw [indexLine_header] at e
+      cases hst : (if st.name.isSome then storeInfo { st with pos := st.pos + (62 :: tl).length }
+          else .ok { st with pos := st.pos + (62 :: tl).length }) with
+      | error err => rw [hst] at e; cases e
+      | ok st2 =>
+        rw [hst, ok_bind] at e
+        obtain ⟨h1, h2⟩ := inv_headerPart e
+        exact invL_of_isSome h1 h2 rest
+    · cases hn : st.name with
+      | some n =>
+        obtain ⟨r, hr⟩ := hI.rplSome n hn
+        rw [indexLine_residue bs st b0 tl r n hb hr hn] at e
+        simp only [Except.ok.injEq] at e
+        subst e
+        have hak : Inv (addKeep st (b0 :: tl).length (keepOf st.lineEndBytes (b0 :: tl)) r) :=
+          ⟨hI.nameNe, fun _ _ => ⟨_, rfl⟩, hI.lebPos, hI.reg⟩
+        have hname : (addKeep st (b0 :: tl).length (keepOf st.lineEndBytes (b0 :: tl)) r).name.isSome = true := by
+          simp [addKeep, hn]
+        split
+        · refine invL_of_isSome hak.processSeqBuffer ?_ rest
+          rw [processSeqBuffer_eq]; exact hname
+        · exact invL_of_isSome hak hname rest
+      | none =>
+        obtain ⟨hA, hB⟩ := hsafe hn
+        by_cases hl : (b0 :: tl).getLast? = some 10
+        · cases hr : st.rpl with
+          | none => rw [indexLine_pre_term bs st b0 tl hb hr hl] at e; cases e
+          | some r =>
+            have := hB (by rw [hr]; simp)
+            simp [safeB, hb, hl] at this
+        · rw [indexLine_pre_open bs st b0 tl hb hn hl] at e
+          split at e
+          · cases e
+          · simp only [Except.ok.injEq] at e
+            subst e
+            refine ⟨⟨?_, ?_, ?_, hI.reg⟩, ?_⟩
+            · intro n hn'; simp [addKeep, hn] at hn'
+            · intro n hn'; simp [addKeep, hn] at hn'
+            · intro n hn'; simp [addKeep, hn] at hn'
+            · intro _
+              refine ⟨fun hr' => by simp [addKeep] at hr', fun _ => ?_⟩
+              cases hr : st.rpl with
+              | none =>
+                have := hA hr
+                simpa [preHeaderOk, hb, hl] using this
+              | some r =>
+                have := hB (by rw [hr]; simp)
+                simpa [safeB, hb, hl] using this
 
 end AgpTpf.ImpIndex
